@@ -471,8 +471,8 @@ TIES = {
                            theorems=['clause_plumbing_tie', 'applyClause_eq', 'clauses_registered', 'statement_registers'],
                            cxx='with::action, sideeffect::action, handle_return::action, handle_throw::action (run-time parts), '
                                'call_matcher::set_return (mock.hpp): each clause makes one call into the matcher'),
-    'Printers': dict(props=['C18'], gen=['RangePrinters', 'SetPredicatePrinters'],
-                     theorems=['expected_values_go_through_print', 'printers_covered'],
+    'Printers': dict(props=['C18'], gen=['RangePrinters', 'SetPredicatePrinters', 'MemberIsPrinter'],
+                     theorems=['expected_values_go_through_print', 'printers_covered', 'member_is_value_goes_through_print'],
                      cxx='the *_printer structs of matcher/range.hpp and matcher/set_predicate.hpp: every held value is written through trompeloeil::print'),
     'ReturnPath': dict(props=['C08', 'C17'], gen=['ReturnHandlerCall', 'TraceReturnVoid', 'TraceReturnValue', 'ThrowHandlerCall'],
                        theorems=['return_path_tie', 'return_evaluated_once', 'throw_path_tie', 'throw_evaluated_once'],
